@@ -116,6 +116,15 @@ func samples(t reflect.Type, budget int) []reflect.Value {
 			}
 			v.Set(s)
 		}))
+		// same length, other elements: a target of this shape has room for the slice above (decoders that reuse the
+		// caller's backing array are caught by the "failed decode leaves the target untouched" check)
+		out = append(out, mk(func(v reflect.Value) {
+			s := reflect.MakeSlice(t, 0, 3)
+			for i := 0; i < 3; i++ {
+				s = reflect.Append(s, es[(i+1)%len(es)])
+			}
+			v.Set(s)
+		}))
 		return out
 	case reflect.Array:
 		es := samples(t.Elem(), budget)
@@ -233,11 +242,15 @@ func TestBoundedReflectRoundTrip(t *testing.T) {
 func TestBoundedReflectTotal(t *testing.T) {
 	n := 0
 	for _, ty := range typesOfDepth(boundedDepth()) {
-		for _, v := range samples(ty, 3) {
+		ss := samples(ty, 3)
+		for si, v := range ss {
 			data, err := encode(v)
 			if err != nil || len(data) > 64 {
 				continue
 			}
+			// another value of the same type: what the caller's target holds before the damaged input arrives
+			alt := ss[(si+1)%len(ss)]
+			altData, altErr := encode(alt)
 			try := func(in []byte, what string) {
 				n++
 				defer func() {
@@ -250,6 +263,15 @@ func TestBoundedReflectTotal(t *testing.T) {
 				_ = r.Read(out.Interface())
 				if r.Pos() < 0 || r.Pos() > len(in) {
 					t.Errorf("reader position %d outside [0,%d] after %s", r.Pos(), len(in), what)
+				}
+				// "a failed decode leaves the caller's previously decoded values untouched": decode the damaged input
+				// into a target that already holds the sample value (its own copy, with its own backing arrays)
+				prev := reflect.New(ty)
+				if altErr != nil || NewReader(altData).Read(prev.Interface()) != nil {
+					return
+				}
+				if err := NewReader(in).Read(prev.Interface()); err != nil && !equalWire(prev.Elem(), alt) {
+					t.Errorf("failed decode (%s, %v) of %s changed the target: was %v, is %v", what, err, ty, alt, prev.Elem())
 				}
 			}
 			for k := 0; k < len(data); k++ {
